@@ -83,3 +83,444 @@ Example C17_ex : U_Shl_prim true 8 AU64 [1; 0; 0] 9 = Ret [0; 2; 0] /\ U_Add_dig
   U_Sum true 8 2 [[1; 0]; [2; 0]; [255; 0]] = Ret [2; 1] /\ U_Sum true 8 1 [[200]; [100]] = Panic /\
   U_Sum false 8 1 [[200]; [100]] = Ret [44].
 Proof. vm_compute. repeat split. Qed.
+
+(* ==== glue tie of the trait layer (text written by tools/mk_gluetie_c17.py; keep at the END of the file) ==== *)
+(* ---- tie to the source: every reference / assign operator form (op_ref_impl!, assign_op_impl!, shift_assign_ops!), the
+   six impls of each shift_self_impl! invocation and Sum / Product / Default, REGENERATED from /repo/src on every run
+   (Generated/Glue.v, tools/rs2v_glue.py), equal the by-value model function on the dereferenced operands - the expression
+   Run/RunC17.v runs for that operation - for every digit width, digit count, build mode and operand; the forms whose
+   amount is a bnum under the hypotheses of the C13 theorem about u32::try_from (well-formed amount, N >= 1, Rust's digit
+   widths).  The by-value impls they call are tied in GlueTieC04.v (C04_glue_rs_matches_model) ---- *)
+From Bnum.Model Require Import Digit Core Shift AddSub Mul Div Bits Pow.
+From Bnum.Model Require Ops.
+From Bnum.Generated Require Import Glue.
+From Bnum.Proofs Require Import GlueTieCommon GlueTieC17.
+Theorem C17_glue_rs_matches_model :
+  (forall dbg w a b, Glue.U_Add_vr_add dbg w a b = U_add dbg w a b) /\
+  (forall dbg w a b, Glue.U_Add_rr_add dbg w a b = U_add dbg w a b) /\
+  (forall dbg w a b, Glue.U_Add_rv_add dbg w a b = U_add dbg w a b) /\
+  (forall dbg w a b, Glue.U_AddAssign_add_assign dbg w a b = U_add dbg w a b) /\
+  (forall dbg w a b, Glue.U_AddAssign_ref_add_assign dbg w a b = U_add dbg w a b) /\
+  (forall dbg w a b, Glue.U_Sub_vr_sub dbg w a b = U_sub dbg w a b) /\
+  (forall dbg w a b, Glue.U_Sub_rr_sub dbg w a b = U_sub dbg w a b) /\
+  (forall dbg w a b, Glue.U_Sub_rv_sub dbg w a b = U_sub dbg w a b) /\
+  (forall dbg w a b, Glue.U_SubAssign_sub_assign dbg w a b = U_sub dbg w a b) /\
+  (forall dbg w a b, Glue.U_SubAssign_ref_sub_assign dbg w a b = U_sub dbg w a b) /\
+  (forall dbg w a b, Glue.U_Mul_vr_mul dbg w a b = U_mul dbg w a b) /\
+  (forall dbg w a b, Glue.U_Mul_rr_mul dbg w a b = U_mul dbg w a b) /\
+  (forall dbg w a b, Glue.U_Mul_rv_mul dbg w a b = U_mul dbg w a b) /\
+  (forall dbg w a b, Glue.U_MulAssign_mul_assign dbg w a b = U_mul dbg w a b) /\
+  (forall dbg w a b, Glue.U_MulAssign_ref_mul_assign dbg w a b = U_mul dbg w a b) /\
+  (forall w a b, Glue.U_Div_vr_div w a b = U_div w a b) /\
+  (forall w a b, Glue.U_Div_rr_div w a b = U_div w a b) /\
+  (forall w a b, Glue.U_Div_rv_div w a b = U_div w a b) /\
+  (forall w a b, Glue.U_DivAssign_div_assign w a b = U_div w a b) /\
+  (forall w a b, Glue.U_DivAssign_ref_div_assign w a b = U_div w a b) /\
+  (forall w a b, Glue.U_Rem_vr_rem w a b = U_rem w a b) /\
+  (forall w a b, Glue.U_Rem_rr_rem w a b = U_rem w a b) /\
+  (forall w a b, Glue.U_Rem_rv_rem w a b = U_rem w a b) /\
+  (forall w a b, Glue.U_RemAssign_rem_assign w a b = U_rem w a b) /\
+  (forall w a b, Glue.U_RemAssign_ref_rem_assign w a b = U_rem w a b) /\
+  (forall w a b, Glue.U_BitAnd_vr_bitand w a b = bitand a b) /\
+  (forall w a b, Glue.U_BitAnd_rr_bitand w a b = bitand a b) /\
+  (forall w a b, Glue.U_BitAnd_rv_bitand w a b = bitand a b) /\
+  (forall w a b, Glue.U_BitAndAssign_bitand_assign w a b = bitand a b) /\
+  (forall w a b, Glue.U_BitAndAssign_ref_bitand_assign w a b = bitand a b) /\
+  (forall w a b, Glue.U_BitOr_vr_bitor w a b = bitor a b) /\
+  (forall w a b, Glue.U_BitOr_rr_bitor w a b = bitor a b) /\
+  (forall w a b, Glue.U_BitOr_rv_bitor w a b = bitor a b) /\
+  (forall w a b, Glue.U_BitOrAssign_bitor_assign w a b = bitor a b) /\
+  (forall w a b, Glue.U_BitOrAssign_ref_bitor_assign w a b = bitor a b) /\
+  (forall w a b, Glue.U_BitXor_vr_bitxor w a b = bitxor a b) /\
+  (forall w a b, Glue.U_BitXor_rr_bitxor w a b = bitxor a b) /\
+  (forall w a b, Glue.U_BitXor_rv_bitxor w a b = bitxor a b) /\
+  (forall w a b, Glue.U_BitXorAssign_bitxor_assign w a b = bitxor a b) /\
+  (forall w a b, Glue.U_BitXorAssign_ref_bitxor_assign w a b = bitxor a b) /\
+  (forall dbg w a k, Glue.U_Shl_u8_vr_shl dbg w a k = Ops.U_Shl_prim dbg w Ops.AU8 a k) /\
+  (forall dbg w a k, Glue.U_Shl_u8_rr_shl dbg w a k = Ops.U_Shl_prim dbg w Ops.AU8 a k) /\
+  (forall dbg w a k, Glue.U_Shl_u8_rv_shl dbg w a k = Ops.U_Shl_prim dbg w Ops.AU8 a k) /\
+  (forall dbg w a k, Glue.U_ShlAssign_u8_shl_assign dbg w a k = Ops.U_Shl_prim dbg w Ops.AU8 a k) /\
+  (forall dbg w a k, Glue.U_ShlAssign_u8_ref_shl_assign dbg w a k = Ops.U_Shl_prim dbg w Ops.AU8 a k) /\
+  (forall dbg w a k, Glue.U_Shl_u16_vr_shl dbg w a k = Ops.U_Shl_prim dbg w Ops.AU16 a k) /\
+  (forall dbg w a k, Glue.U_Shl_u16_rr_shl dbg w a k = Ops.U_Shl_prim dbg w Ops.AU16 a k) /\
+  (forall dbg w a k, Glue.U_Shl_u16_rv_shl dbg w a k = Ops.U_Shl_prim dbg w Ops.AU16 a k) /\
+  (forall dbg w a k, Glue.U_ShlAssign_u16_shl_assign dbg w a k = Ops.U_Shl_prim dbg w Ops.AU16 a k) /\
+  (forall dbg w a k, Glue.U_ShlAssign_u16_ref_shl_assign dbg w a k = Ops.U_Shl_prim dbg w Ops.AU16 a k) /\
+  (forall dbg w a k, Glue.U_Shl_u32_vr_shl dbg w a k = Ops.U_Shl_prim dbg w Ops.AU32 a k) /\
+  (forall dbg w a k, Glue.U_Shl_u32_rr_shl dbg w a k = Ops.U_Shl_prim dbg w Ops.AU32 a k) /\
+  (forall dbg w a k, Glue.U_Shl_u32_rv_shl dbg w a k = Ops.U_Shl_prim dbg w Ops.AU32 a k) /\
+  (forall dbg w a k, Glue.U_ShlAssign_u32_shl_assign dbg w a k = Ops.U_Shl_prim dbg w Ops.AU32 a k) /\
+  (forall dbg w a k, Glue.U_ShlAssign_u32_ref_shl_assign dbg w a k = Ops.U_Shl_prim dbg w Ops.AU32 a k) /\
+  (forall dbg w a k, Glue.U_Shl_u64_vr_shl dbg w a k = Ops.U_Shl_prim dbg w Ops.AU64 a k) /\
+  (forall dbg w a k, Glue.U_Shl_u64_rr_shl dbg w a k = Ops.U_Shl_prim dbg w Ops.AU64 a k) /\
+  (forall dbg w a k, Glue.U_Shl_u64_rv_shl dbg w a k = Ops.U_Shl_prim dbg w Ops.AU64 a k) /\
+  (forall dbg w a k, Glue.U_ShlAssign_u64_shl_assign dbg w a k = Ops.U_Shl_prim dbg w Ops.AU64 a k) /\
+  (forall dbg w a k, Glue.U_ShlAssign_u64_ref_shl_assign dbg w a k = Ops.U_Shl_prim dbg w Ops.AU64 a k) /\
+  (forall dbg w a k, Glue.U_Shl_u128_vr_shl dbg w a k = Ops.U_Shl_prim dbg w Ops.AU128 a k) /\
+  (forall dbg w a k, Glue.U_Shl_u128_rr_shl dbg w a k = Ops.U_Shl_prim dbg w Ops.AU128 a k) /\
+  (forall dbg w a k, Glue.U_Shl_u128_rv_shl dbg w a k = Ops.U_Shl_prim dbg w Ops.AU128 a k) /\
+  (forall dbg w a k, Glue.U_ShlAssign_u128_shl_assign dbg w a k = Ops.U_Shl_prim dbg w Ops.AU128 a k) /\
+  (forall dbg w a k, Glue.U_ShlAssign_u128_ref_shl_assign dbg w a k = Ops.U_Shl_prim dbg w Ops.AU128 a k) /\
+  (forall dbg w a k, Glue.U_Shl_usize_vr_shl dbg w a k = Ops.U_Shl_prim dbg w Ops.AUsize a k) /\
+  (forall dbg w a k, Glue.U_Shl_usize_rr_shl dbg w a k = Ops.U_Shl_prim dbg w Ops.AUsize a k) /\
+  (forall dbg w a k, Glue.U_Shl_usize_rv_shl dbg w a k = Ops.U_Shl_prim dbg w Ops.AUsize a k) /\
+  (forall dbg w a k, Glue.U_ShlAssign_usize_shl_assign dbg w a k = Ops.U_Shl_prim dbg w Ops.AUsize a k) /\
+  (forall dbg w a k, Glue.U_ShlAssign_usize_ref_shl_assign dbg w a k = Ops.U_Shl_prim dbg w Ops.AUsize a k) /\
+  (forall dbg w a k, Glue.U_Shl_i8_vr_shl dbg w a k = Ops.U_Shl_prim dbg w Ops.AI8 a k) /\
+  (forall dbg w a k, Glue.U_Shl_i8_rr_shl dbg w a k = Ops.U_Shl_prim dbg w Ops.AI8 a k) /\
+  (forall dbg w a k, Glue.U_Shl_i8_rv_shl dbg w a k = Ops.U_Shl_prim dbg w Ops.AI8 a k) /\
+  (forall dbg w a k, Glue.U_ShlAssign_i8_shl_assign dbg w a k = Ops.U_Shl_prim dbg w Ops.AI8 a k) /\
+  (forall dbg w a k, Glue.U_ShlAssign_i8_ref_shl_assign dbg w a k = Ops.U_Shl_prim dbg w Ops.AI8 a k) /\
+  (forall dbg w a k, Glue.U_Shl_i16_vr_shl dbg w a k = Ops.U_Shl_prim dbg w Ops.AI16 a k) /\
+  (forall dbg w a k, Glue.U_Shl_i16_rr_shl dbg w a k = Ops.U_Shl_prim dbg w Ops.AI16 a k) /\
+  (forall dbg w a k, Glue.U_Shl_i16_rv_shl dbg w a k = Ops.U_Shl_prim dbg w Ops.AI16 a k) /\
+  (forall dbg w a k, Glue.U_ShlAssign_i16_shl_assign dbg w a k = Ops.U_Shl_prim dbg w Ops.AI16 a k) /\
+  (forall dbg w a k, Glue.U_ShlAssign_i16_ref_shl_assign dbg w a k = Ops.U_Shl_prim dbg w Ops.AI16 a k) /\
+  (forall dbg w a k, Glue.U_Shl_i32_vr_shl dbg w a k = Ops.U_Shl_prim dbg w Ops.AI32 a k) /\
+  (forall dbg w a k, Glue.U_Shl_i32_rr_shl dbg w a k = Ops.U_Shl_prim dbg w Ops.AI32 a k) /\
+  (forall dbg w a k, Glue.U_Shl_i32_rv_shl dbg w a k = Ops.U_Shl_prim dbg w Ops.AI32 a k) /\
+  (forall dbg w a k, Glue.U_ShlAssign_i32_shl_assign dbg w a k = Ops.U_Shl_prim dbg w Ops.AI32 a k) /\
+  (forall dbg w a k, Glue.U_ShlAssign_i32_ref_shl_assign dbg w a k = Ops.U_Shl_prim dbg w Ops.AI32 a k) /\
+  (forall dbg w a k, Glue.U_Shl_i64_vr_shl dbg w a k = Ops.U_Shl_prim dbg w Ops.AI64 a k) /\
+  (forall dbg w a k, Glue.U_Shl_i64_rr_shl dbg w a k = Ops.U_Shl_prim dbg w Ops.AI64 a k) /\
+  (forall dbg w a k, Glue.U_Shl_i64_rv_shl dbg w a k = Ops.U_Shl_prim dbg w Ops.AI64 a k) /\
+  (forall dbg w a k, Glue.U_ShlAssign_i64_shl_assign dbg w a k = Ops.U_Shl_prim dbg w Ops.AI64 a k) /\
+  (forall dbg w a k, Glue.U_ShlAssign_i64_ref_shl_assign dbg w a k = Ops.U_Shl_prim dbg w Ops.AI64 a k) /\
+  (forall dbg w a k, Glue.U_Shl_i128_vr_shl dbg w a k = Ops.U_Shl_prim dbg w Ops.AI128 a k) /\
+  (forall dbg w a k, Glue.U_Shl_i128_rr_shl dbg w a k = Ops.U_Shl_prim dbg w Ops.AI128 a k) /\
+  (forall dbg w a k, Glue.U_Shl_i128_rv_shl dbg w a k = Ops.U_Shl_prim dbg w Ops.AI128 a k) /\
+  (forall dbg w a k, Glue.U_ShlAssign_i128_shl_assign dbg w a k = Ops.U_Shl_prim dbg w Ops.AI128 a k) /\
+  (forall dbg w a k, Glue.U_ShlAssign_i128_ref_shl_assign dbg w a k = Ops.U_Shl_prim dbg w Ops.AI128 a k) /\
+  (forall dbg w a k, Glue.U_Shl_isize_vr_shl dbg w a k = Ops.U_Shl_prim dbg w Ops.AIsize a k) /\
+  (forall dbg w a k, Glue.U_Shl_isize_rr_shl dbg w a k = Ops.U_Shl_prim dbg w Ops.AIsize a k) /\
+  (forall dbg w a k, Glue.U_Shl_isize_rv_shl dbg w a k = Ops.U_Shl_prim dbg w Ops.AIsize a k) /\
+  (forall dbg w a k, Glue.U_ShlAssign_isize_shl_assign dbg w a k = Ops.U_Shl_prim dbg w Ops.AIsize a k) /\
+  (forall dbg w a k, Glue.U_ShlAssign_isize_ref_shl_assign dbg w a k = Ops.U_Shl_prim dbg w Ops.AIsize a k) /\
+  (forall dbg w a b n, 0 < w -> 32 < w \/ (w | 32) -> (0 < n)%nat -> wf w n b ->
+  Glue.U_Shl_BUint_shl dbg w a b = Ops.Shl_bnum dbg w false false a b) /\
+  (forall dbg w a b n, 0 < w -> 32 < w \/ (w | 32) -> (0 < n)%nat -> wf w n b ->
+  Glue.U_Shl_BUint_vr_shl dbg w a b = Ops.Shl_bnum dbg w false false a b) /\
+  (forall dbg w a b n, 0 < w -> 32 < w \/ (w | 32) -> (0 < n)%nat -> wf w n b ->
+  Glue.U_Shl_BUint_rr_shl dbg w a b = Ops.Shl_bnum dbg w false false a b) /\
+  (forall dbg w a b n, 0 < w -> 32 < w \/ (w | 32) -> (0 < n)%nat -> wf w n b ->
+  Glue.U_Shl_BUint_rv_shl dbg w a b = Ops.Shl_bnum dbg w false false a b) /\
+  (forall dbg w a b n, 0 < w -> 32 < w \/ (w | 32) -> (0 < n)%nat -> wf w n b ->
+  Glue.U_ShlAssign_BUint_shl_assign dbg w a b = Ops.Shl_bnum dbg w false false a b) /\
+  (forall dbg w a b n, 0 < w -> 32 < w \/ (w | 32) -> (0 < n)%nat -> wf w n b ->
+  Glue.U_ShlAssign_BUint_ref_shl_assign dbg w a b = Ops.Shl_bnum dbg w false false a b) /\
+  (forall dbg w a b n, 0 < w -> 32 < w \/ (w | 32) -> (0 < n)%nat -> wf w n b ->
+  Glue.U_Shl_BInt_shl dbg w a b = Ops.Shl_bnum dbg w false true a b) /\
+  (forall dbg w a b n, 0 < w -> 32 < w \/ (w | 32) -> (0 < n)%nat -> wf w n b ->
+  Glue.U_Shl_BInt_vr_shl dbg w a b = Ops.Shl_bnum dbg w false true a b) /\
+  (forall dbg w a b n, 0 < w -> 32 < w \/ (w | 32) -> (0 < n)%nat -> wf w n b ->
+  Glue.U_Shl_BInt_rr_shl dbg w a b = Ops.Shl_bnum dbg w false true a b) /\
+  (forall dbg w a b n, 0 < w -> 32 < w \/ (w | 32) -> (0 < n)%nat -> wf w n b ->
+  Glue.U_Shl_BInt_rv_shl dbg w a b = Ops.Shl_bnum dbg w false true a b) /\
+  (forall dbg w a b n, 0 < w -> 32 < w \/ (w | 32) -> (0 < n)%nat -> wf w n b ->
+  Glue.U_ShlAssign_BInt_shl_assign dbg w a b = Ops.Shl_bnum dbg w false true a b) /\
+  (forall dbg w a b n, 0 < w -> 32 < w \/ (w | 32) -> (0 < n)%nat -> wf w n b ->
+  Glue.U_ShlAssign_BInt_ref_shl_assign dbg w a b = Ops.Shl_bnum dbg w false true a b) /\
+  (forall dbg w a k, Glue.U_Shr_u8_vr_shr dbg w a k = Ops.U_Shr_prim dbg w Ops.AU8 a k) /\
+  (forall dbg w a k, Glue.U_Shr_u8_rr_shr dbg w a k = Ops.U_Shr_prim dbg w Ops.AU8 a k) /\
+  (forall dbg w a k, Glue.U_Shr_u8_rv_shr dbg w a k = Ops.U_Shr_prim dbg w Ops.AU8 a k) /\
+  (forall dbg w a k, Glue.U_ShrAssign_u8_shr_assign dbg w a k = Ops.U_Shr_prim dbg w Ops.AU8 a k) /\
+  (forall dbg w a k, Glue.U_ShrAssign_u8_ref_shr_assign dbg w a k = Ops.U_Shr_prim dbg w Ops.AU8 a k) /\
+  (forall dbg w a k, Glue.U_Shr_u16_vr_shr dbg w a k = Ops.U_Shr_prim dbg w Ops.AU16 a k) /\
+  (forall dbg w a k, Glue.U_Shr_u16_rr_shr dbg w a k = Ops.U_Shr_prim dbg w Ops.AU16 a k) /\
+  (forall dbg w a k, Glue.U_Shr_u16_rv_shr dbg w a k = Ops.U_Shr_prim dbg w Ops.AU16 a k) /\
+  (forall dbg w a k, Glue.U_ShrAssign_u16_shr_assign dbg w a k = Ops.U_Shr_prim dbg w Ops.AU16 a k) /\
+  (forall dbg w a k, Glue.U_ShrAssign_u16_ref_shr_assign dbg w a k = Ops.U_Shr_prim dbg w Ops.AU16 a k) /\
+  (forall dbg w a k, Glue.U_Shr_u32_vr_shr dbg w a k = Ops.U_Shr_prim dbg w Ops.AU32 a k) /\
+  (forall dbg w a k, Glue.U_Shr_u32_rr_shr dbg w a k = Ops.U_Shr_prim dbg w Ops.AU32 a k) /\
+  (forall dbg w a k, Glue.U_Shr_u32_rv_shr dbg w a k = Ops.U_Shr_prim dbg w Ops.AU32 a k) /\
+  (forall dbg w a k, Glue.U_ShrAssign_u32_shr_assign dbg w a k = Ops.U_Shr_prim dbg w Ops.AU32 a k) /\
+  (forall dbg w a k, Glue.U_ShrAssign_u32_ref_shr_assign dbg w a k = Ops.U_Shr_prim dbg w Ops.AU32 a k) /\
+  (forall dbg w a k, Glue.U_Shr_u64_vr_shr dbg w a k = Ops.U_Shr_prim dbg w Ops.AU64 a k) /\
+  (forall dbg w a k, Glue.U_Shr_u64_rr_shr dbg w a k = Ops.U_Shr_prim dbg w Ops.AU64 a k) /\
+  (forall dbg w a k, Glue.U_Shr_u64_rv_shr dbg w a k = Ops.U_Shr_prim dbg w Ops.AU64 a k) /\
+  (forall dbg w a k, Glue.U_ShrAssign_u64_shr_assign dbg w a k = Ops.U_Shr_prim dbg w Ops.AU64 a k) /\
+  (forall dbg w a k, Glue.U_ShrAssign_u64_ref_shr_assign dbg w a k = Ops.U_Shr_prim dbg w Ops.AU64 a k) /\
+  (forall dbg w a k, Glue.U_Shr_u128_vr_shr dbg w a k = Ops.U_Shr_prim dbg w Ops.AU128 a k) /\
+  (forall dbg w a k, Glue.U_Shr_u128_rr_shr dbg w a k = Ops.U_Shr_prim dbg w Ops.AU128 a k) /\
+  (forall dbg w a k, Glue.U_Shr_u128_rv_shr dbg w a k = Ops.U_Shr_prim dbg w Ops.AU128 a k) /\
+  (forall dbg w a k, Glue.U_ShrAssign_u128_shr_assign dbg w a k = Ops.U_Shr_prim dbg w Ops.AU128 a k) /\
+  (forall dbg w a k, Glue.U_ShrAssign_u128_ref_shr_assign dbg w a k = Ops.U_Shr_prim dbg w Ops.AU128 a k) /\
+  (forall dbg w a k, Glue.U_Shr_usize_vr_shr dbg w a k = Ops.U_Shr_prim dbg w Ops.AUsize a k) /\
+  (forall dbg w a k, Glue.U_Shr_usize_rr_shr dbg w a k = Ops.U_Shr_prim dbg w Ops.AUsize a k) /\
+  (forall dbg w a k, Glue.U_Shr_usize_rv_shr dbg w a k = Ops.U_Shr_prim dbg w Ops.AUsize a k) /\
+  (forall dbg w a k, Glue.U_ShrAssign_usize_shr_assign dbg w a k = Ops.U_Shr_prim dbg w Ops.AUsize a k) /\
+  (forall dbg w a k, Glue.U_ShrAssign_usize_ref_shr_assign dbg w a k = Ops.U_Shr_prim dbg w Ops.AUsize a k) /\
+  (forall dbg w a k, Glue.U_Shr_i8_vr_shr dbg w a k = Ops.U_Shr_prim dbg w Ops.AI8 a k) /\
+  (forall dbg w a k, Glue.U_Shr_i8_rr_shr dbg w a k = Ops.U_Shr_prim dbg w Ops.AI8 a k) /\
+  (forall dbg w a k, Glue.U_Shr_i8_rv_shr dbg w a k = Ops.U_Shr_prim dbg w Ops.AI8 a k) /\
+  (forall dbg w a k, Glue.U_ShrAssign_i8_shr_assign dbg w a k = Ops.U_Shr_prim dbg w Ops.AI8 a k) /\
+  (forall dbg w a k, Glue.U_ShrAssign_i8_ref_shr_assign dbg w a k = Ops.U_Shr_prim dbg w Ops.AI8 a k) /\
+  (forall dbg w a k, Glue.U_Shr_i16_vr_shr dbg w a k = Ops.U_Shr_prim dbg w Ops.AI16 a k) /\
+  (forall dbg w a k, Glue.U_Shr_i16_rr_shr dbg w a k = Ops.U_Shr_prim dbg w Ops.AI16 a k) /\
+  (forall dbg w a k, Glue.U_Shr_i16_rv_shr dbg w a k = Ops.U_Shr_prim dbg w Ops.AI16 a k) /\
+  (forall dbg w a k, Glue.U_ShrAssign_i16_shr_assign dbg w a k = Ops.U_Shr_prim dbg w Ops.AI16 a k) /\
+  (forall dbg w a k, Glue.U_ShrAssign_i16_ref_shr_assign dbg w a k = Ops.U_Shr_prim dbg w Ops.AI16 a k) /\
+  (forall dbg w a k, Glue.U_Shr_i32_vr_shr dbg w a k = Ops.U_Shr_prim dbg w Ops.AI32 a k) /\
+  (forall dbg w a k, Glue.U_Shr_i32_rr_shr dbg w a k = Ops.U_Shr_prim dbg w Ops.AI32 a k) /\
+  (forall dbg w a k, Glue.U_Shr_i32_rv_shr dbg w a k = Ops.U_Shr_prim dbg w Ops.AI32 a k) /\
+  (forall dbg w a k, Glue.U_ShrAssign_i32_shr_assign dbg w a k = Ops.U_Shr_prim dbg w Ops.AI32 a k) /\
+  (forall dbg w a k, Glue.U_ShrAssign_i32_ref_shr_assign dbg w a k = Ops.U_Shr_prim dbg w Ops.AI32 a k) /\
+  (forall dbg w a k, Glue.U_Shr_i64_vr_shr dbg w a k = Ops.U_Shr_prim dbg w Ops.AI64 a k) /\
+  (forall dbg w a k, Glue.U_Shr_i64_rr_shr dbg w a k = Ops.U_Shr_prim dbg w Ops.AI64 a k) /\
+  (forall dbg w a k, Glue.U_Shr_i64_rv_shr dbg w a k = Ops.U_Shr_prim dbg w Ops.AI64 a k) /\
+  (forall dbg w a k, Glue.U_ShrAssign_i64_shr_assign dbg w a k = Ops.U_Shr_prim dbg w Ops.AI64 a k) /\
+  (forall dbg w a k, Glue.U_ShrAssign_i64_ref_shr_assign dbg w a k = Ops.U_Shr_prim dbg w Ops.AI64 a k) /\
+  (forall dbg w a k, Glue.U_Shr_i128_vr_shr dbg w a k = Ops.U_Shr_prim dbg w Ops.AI128 a k) /\
+  (forall dbg w a k, Glue.U_Shr_i128_rr_shr dbg w a k = Ops.U_Shr_prim dbg w Ops.AI128 a k) /\
+  (forall dbg w a k, Glue.U_Shr_i128_rv_shr dbg w a k = Ops.U_Shr_prim dbg w Ops.AI128 a k) /\
+  (forall dbg w a k, Glue.U_ShrAssign_i128_shr_assign dbg w a k = Ops.U_Shr_prim dbg w Ops.AI128 a k) /\
+  (forall dbg w a k, Glue.U_ShrAssign_i128_ref_shr_assign dbg w a k = Ops.U_Shr_prim dbg w Ops.AI128 a k) /\
+  (forall dbg w a k, Glue.U_Shr_isize_vr_shr dbg w a k = Ops.U_Shr_prim dbg w Ops.AIsize a k) /\
+  (forall dbg w a k, Glue.U_Shr_isize_rr_shr dbg w a k = Ops.U_Shr_prim dbg w Ops.AIsize a k) /\
+  (forall dbg w a k, Glue.U_Shr_isize_rv_shr dbg w a k = Ops.U_Shr_prim dbg w Ops.AIsize a k) /\
+  (forall dbg w a k, Glue.U_ShrAssign_isize_shr_assign dbg w a k = Ops.U_Shr_prim dbg w Ops.AIsize a k) /\
+  (forall dbg w a k, Glue.U_ShrAssign_isize_ref_shr_assign dbg w a k = Ops.U_Shr_prim dbg w Ops.AIsize a k) /\
+  (forall dbg w a b n, 0 < w -> 32 < w \/ (w | 32) -> (0 < n)%nat -> wf w n b ->
+  Glue.U_Shr_BUint_shr dbg w a b = Ops.Shr_bnum dbg w false false a b) /\
+  (forall dbg w a b n, 0 < w -> 32 < w \/ (w | 32) -> (0 < n)%nat -> wf w n b ->
+  Glue.U_Shr_BUint_vr_shr dbg w a b = Ops.Shr_bnum dbg w false false a b) /\
+  (forall dbg w a b n, 0 < w -> 32 < w \/ (w | 32) -> (0 < n)%nat -> wf w n b ->
+  Glue.U_Shr_BUint_rr_shr dbg w a b = Ops.Shr_bnum dbg w false false a b) /\
+  (forall dbg w a b n, 0 < w -> 32 < w \/ (w | 32) -> (0 < n)%nat -> wf w n b ->
+  Glue.U_Shr_BUint_rv_shr dbg w a b = Ops.Shr_bnum dbg w false false a b) /\
+  (forall dbg w a b n, 0 < w -> 32 < w \/ (w | 32) -> (0 < n)%nat -> wf w n b ->
+  Glue.U_ShrAssign_BUint_shr_assign dbg w a b = Ops.Shr_bnum dbg w false false a b) /\
+  (forall dbg w a b n, 0 < w -> 32 < w \/ (w | 32) -> (0 < n)%nat -> wf w n b ->
+  Glue.U_ShrAssign_BUint_ref_shr_assign dbg w a b = Ops.Shr_bnum dbg w false false a b) /\
+  (forall dbg w a b n, 0 < w -> 32 < w \/ (w | 32) -> (0 < n)%nat -> wf w n b ->
+  Glue.U_Shr_BInt_shr dbg w a b = Ops.Shr_bnum dbg w false true a b) /\
+  (forall dbg w a b n, 0 < w -> 32 < w \/ (w | 32) -> (0 < n)%nat -> wf w n b ->
+  Glue.U_Shr_BInt_vr_shr dbg w a b = Ops.Shr_bnum dbg w false true a b) /\
+  (forall dbg w a b n, 0 < w -> 32 < w \/ (w | 32) -> (0 < n)%nat -> wf w n b ->
+  Glue.U_Shr_BInt_rr_shr dbg w a b = Ops.Shr_bnum dbg w false true a b) /\
+  (forall dbg w a b n, 0 < w -> 32 < w \/ (w | 32) -> (0 < n)%nat -> wf w n b ->
+  Glue.U_Shr_BInt_rv_shr dbg w a b = Ops.Shr_bnum dbg w false true a b) /\
+  (forall dbg w a b n, 0 < w -> 32 < w \/ (w | 32) -> (0 < n)%nat -> wf w n b ->
+  Glue.U_ShrAssign_BInt_shr_assign dbg w a b = Ops.Shr_bnum dbg w false true a b) /\
+  (forall dbg w a b n, 0 < w -> 32 < w \/ (w | 32) -> (0 < n)%nat -> wf w n b ->
+  Glue.U_ShrAssign_BInt_ref_shr_assign dbg w a b = Ops.Shr_bnum dbg w false true a b) /\
+  (forall w n, Glue.U_Default_default w n = Ops.Default n) /\
+  (forall dbg w n xs, Glue.U_Sum_sum dbg w n xs = Ops.U_Sum dbg w n xs) /\
+  (forall dbg w n xs, Glue.U_Sum_ref_sum dbg w n xs = Ops.U_Sum dbg w n xs) /\
+  (forall dbg w n xs, Glue.U_Product_product dbg w n xs = Ops.U_Product dbg w n xs) /\
+  (forall dbg w n xs, Glue.U_Product_ref_product dbg w n xs = Ops.U_Product dbg w n xs) /\
+  (forall dbg w a b, Glue.I_Add_vr_add dbg w a b = I_add dbg w a b) /\
+  (forall dbg w a b, Glue.I_Add_rr_add dbg w a b = I_add dbg w a b) /\
+  (forall dbg w a b, Glue.I_Add_rv_add dbg w a b = I_add dbg w a b) /\
+  (forall dbg w a b, Glue.I_AddAssign_add_assign dbg w a b = I_add dbg w a b) /\
+  (forall dbg w a b, Glue.I_AddAssign_ref_add_assign dbg w a b = I_add dbg w a b) /\
+  (forall dbg w a b, Glue.I_Sub_vr_sub dbg w a b = I_sub dbg w a b) /\
+  (forall dbg w a b, Glue.I_Sub_rr_sub dbg w a b = I_sub dbg w a b) /\
+  (forall dbg w a b, Glue.I_Sub_rv_sub dbg w a b = I_sub dbg w a b) /\
+  (forall dbg w a b, Glue.I_SubAssign_sub_assign dbg w a b = I_sub dbg w a b) /\
+  (forall dbg w a b, Glue.I_SubAssign_ref_sub_assign dbg w a b = I_sub dbg w a b) /\
+  (forall dbg w a b, Glue.I_Mul_vr_mul dbg w a b = I_mul dbg w a b) /\
+  (forall dbg w a b, Glue.I_Mul_rr_mul dbg w a b = I_mul dbg w a b) /\
+  (forall dbg w a b, Glue.I_Mul_rv_mul dbg w a b = I_mul dbg w a b) /\
+  (forall dbg w a b, Glue.I_MulAssign_mul_assign dbg w a b = I_mul dbg w a b) /\
+  (forall dbg w a b, Glue.I_MulAssign_ref_mul_assign dbg w a b = I_mul dbg w a b) /\
+  (forall dbg w a b, Glue.I_Div_vr_div dbg w a b = I_div dbg w a b) /\
+  (forall dbg w a b, Glue.I_Div_rr_div dbg w a b = I_div dbg w a b) /\
+  (forall dbg w a b, Glue.I_Div_rv_div dbg w a b = I_div dbg w a b) /\
+  (forall dbg w a b, Glue.I_DivAssign_div_assign dbg w a b = I_div dbg w a b) /\
+  (forall dbg w a b, Glue.I_DivAssign_ref_div_assign dbg w a b = I_div dbg w a b) /\
+  (forall dbg w a b, Glue.I_Rem_vr_rem dbg w a b = I_rem dbg w a b) /\
+  (forall dbg w a b, Glue.I_Rem_rr_rem dbg w a b = I_rem dbg w a b) /\
+  (forall dbg w a b, Glue.I_Rem_rv_rem dbg w a b = I_rem dbg w a b) /\
+  (forall dbg w a b, Glue.I_RemAssign_rem_assign dbg w a b = I_rem dbg w a b) /\
+  (forall dbg w a b, Glue.I_RemAssign_ref_rem_assign dbg w a b = I_rem dbg w a b) /\
+  (forall w a b, Glue.I_BitAnd_vr_bitand w a b = bitand a b) /\
+  (forall w a b, Glue.I_BitAnd_rr_bitand w a b = bitand a b) /\
+  (forall w a b, Glue.I_BitAnd_rv_bitand w a b = bitand a b) /\
+  (forall w a b, Glue.I_BitAndAssign_bitand_assign w a b = bitand a b) /\
+  (forall w a b, Glue.I_BitAndAssign_ref_bitand_assign w a b = bitand a b) /\
+  (forall w a b, Glue.I_BitOr_vr_bitor w a b = bitor a b) /\
+  (forall w a b, Glue.I_BitOr_rr_bitor w a b = bitor a b) /\
+  (forall w a b, Glue.I_BitOr_rv_bitor w a b = bitor a b) /\
+  (forall w a b, Glue.I_BitOrAssign_bitor_assign w a b = bitor a b) /\
+  (forall w a b, Glue.I_BitOrAssign_ref_bitor_assign w a b = bitor a b) /\
+  (forall w a b, Glue.I_BitXor_vr_bitxor w a b = bitxor a b) /\
+  (forall w a b, Glue.I_BitXor_rr_bitxor w a b = bitxor a b) /\
+  (forall w a b, Glue.I_BitXor_rv_bitxor w a b = bitxor a b) /\
+  (forall w a b, Glue.I_BitXorAssign_bitxor_assign w a b = bitxor a b) /\
+  (forall w a b, Glue.I_BitXorAssign_ref_bitxor_assign w a b = bitxor a b) /\
+  (forall dbg w a k, Glue.I_Shl_u8_vr_shl dbg w a k = Ops.I_Shl_prim dbg w Ops.AU8 a k) /\
+  (forall dbg w a k, Glue.I_Shl_u8_rr_shl dbg w a k = Ops.I_Shl_prim dbg w Ops.AU8 a k) /\
+  (forall dbg w a k, Glue.I_Shl_u8_rv_shl dbg w a k = Ops.I_Shl_prim dbg w Ops.AU8 a k) /\
+  (forall dbg w a k, Glue.I_ShlAssign_u8_shl_assign dbg w a k = Ops.I_Shl_prim dbg w Ops.AU8 a k) /\
+  (forall dbg w a k, Glue.I_ShlAssign_u8_ref_shl_assign dbg w a k = Ops.I_Shl_prim dbg w Ops.AU8 a k) /\
+  (forall dbg w a k, Glue.I_Shl_u16_vr_shl dbg w a k = Ops.I_Shl_prim dbg w Ops.AU16 a k) /\
+  (forall dbg w a k, Glue.I_Shl_u16_rr_shl dbg w a k = Ops.I_Shl_prim dbg w Ops.AU16 a k) /\
+  (forall dbg w a k, Glue.I_Shl_u16_rv_shl dbg w a k = Ops.I_Shl_prim dbg w Ops.AU16 a k) /\
+  (forall dbg w a k, Glue.I_ShlAssign_u16_shl_assign dbg w a k = Ops.I_Shl_prim dbg w Ops.AU16 a k) /\
+  (forall dbg w a k, Glue.I_ShlAssign_u16_ref_shl_assign dbg w a k = Ops.I_Shl_prim dbg w Ops.AU16 a k) /\
+  (forall dbg w a k, Glue.I_Shl_u32_vr_shl dbg w a k = Ops.I_Shl_prim dbg w Ops.AU32 a k) /\
+  (forall dbg w a k, Glue.I_Shl_u32_rr_shl dbg w a k = Ops.I_Shl_prim dbg w Ops.AU32 a k) /\
+  (forall dbg w a k, Glue.I_Shl_u32_rv_shl dbg w a k = Ops.I_Shl_prim dbg w Ops.AU32 a k) /\
+  (forall dbg w a k, Glue.I_ShlAssign_u32_shl_assign dbg w a k = Ops.I_Shl_prim dbg w Ops.AU32 a k) /\
+  (forall dbg w a k, Glue.I_ShlAssign_u32_ref_shl_assign dbg w a k = Ops.I_Shl_prim dbg w Ops.AU32 a k) /\
+  (forall dbg w a k, Glue.I_Shl_u64_vr_shl dbg w a k = Ops.I_Shl_prim dbg w Ops.AU64 a k) /\
+  (forall dbg w a k, Glue.I_Shl_u64_rr_shl dbg w a k = Ops.I_Shl_prim dbg w Ops.AU64 a k) /\
+  (forall dbg w a k, Glue.I_Shl_u64_rv_shl dbg w a k = Ops.I_Shl_prim dbg w Ops.AU64 a k) /\
+  (forall dbg w a k, Glue.I_ShlAssign_u64_shl_assign dbg w a k = Ops.I_Shl_prim dbg w Ops.AU64 a k) /\
+  (forall dbg w a k, Glue.I_ShlAssign_u64_ref_shl_assign dbg w a k = Ops.I_Shl_prim dbg w Ops.AU64 a k) /\
+  (forall dbg w a k, Glue.I_Shl_u128_vr_shl dbg w a k = Ops.I_Shl_prim dbg w Ops.AU128 a k) /\
+  (forall dbg w a k, Glue.I_Shl_u128_rr_shl dbg w a k = Ops.I_Shl_prim dbg w Ops.AU128 a k) /\
+  (forall dbg w a k, Glue.I_Shl_u128_rv_shl dbg w a k = Ops.I_Shl_prim dbg w Ops.AU128 a k) /\
+  (forall dbg w a k, Glue.I_ShlAssign_u128_shl_assign dbg w a k = Ops.I_Shl_prim dbg w Ops.AU128 a k) /\
+  (forall dbg w a k, Glue.I_ShlAssign_u128_ref_shl_assign dbg w a k = Ops.I_Shl_prim dbg w Ops.AU128 a k) /\
+  (forall dbg w a k, Glue.I_Shl_usize_vr_shl dbg w a k = Ops.I_Shl_prim dbg w Ops.AUsize a k) /\
+  (forall dbg w a k, Glue.I_Shl_usize_rr_shl dbg w a k = Ops.I_Shl_prim dbg w Ops.AUsize a k) /\
+  (forall dbg w a k, Glue.I_Shl_usize_rv_shl dbg w a k = Ops.I_Shl_prim dbg w Ops.AUsize a k) /\
+  (forall dbg w a k, Glue.I_ShlAssign_usize_shl_assign dbg w a k = Ops.I_Shl_prim dbg w Ops.AUsize a k) /\
+  (forall dbg w a k, Glue.I_ShlAssign_usize_ref_shl_assign dbg w a k = Ops.I_Shl_prim dbg w Ops.AUsize a k) /\
+  (forall dbg w a k, Glue.I_Shl_i8_vr_shl dbg w a k = Ops.I_Shl_prim dbg w Ops.AI8 a k) /\
+  (forall dbg w a k, Glue.I_Shl_i8_rr_shl dbg w a k = Ops.I_Shl_prim dbg w Ops.AI8 a k) /\
+  (forall dbg w a k, Glue.I_Shl_i8_rv_shl dbg w a k = Ops.I_Shl_prim dbg w Ops.AI8 a k) /\
+  (forall dbg w a k, Glue.I_ShlAssign_i8_shl_assign dbg w a k = Ops.I_Shl_prim dbg w Ops.AI8 a k) /\
+  (forall dbg w a k, Glue.I_ShlAssign_i8_ref_shl_assign dbg w a k = Ops.I_Shl_prim dbg w Ops.AI8 a k) /\
+  (forall dbg w a k, Glue.I_Shl_i16_vr_shl dbg w a k = Ops.I_Shl_prim dbg w Ops.AI16 a k) /\
+  (forall dbg w a k, Glue.I_Shl_i16_rr_shl dbg w a k = Ops.I_Shl_prim dbg w Ops.AI16 a k) /\
+  (forall dbg w a k, Glue.I_Shl_i16_rv_shl dbg w a k = Ops.I_Shl_prim dbg w Ops.AI16 a k) /\
+  (forall dbg w a k, Glue.I_ShlAssign_i16_shl_assign dbg w a k = Ops.I_Shl_prim dbg w Ops.AI16 a k) /\
+  (forall dbg w a k, Glue.I_ShlAssign_i16_ref_shl_assign dbg w a k = Ops.I_Shl_prim dbg w Ops.AI16 a k) /\
+  (forall dbg w a k, Glue.I_Shl_i32_vr_shl dbg w a k = Ops.I_Shl_prim dbg w Ops.AI32 a k) /\
+  (forall dbg w a k, Glue.I_Shl_i32_rr_shl dbg w a k = Ops.I_Shl_prim dbg w Ops.AI32 a k) /\
+  (forall dbg w a k, Glue.I_Shl_i32_rv_shl dbg w a k = Ops.I_Shl_prim dbg w Ops.AI32 a k) /\
+  (forall dbg w a k, Glue.I_ShlAssign_i32_shl_assign dbg w a k = Ops.I_Shl_prim dbg w Ops.AI32 a k) /\
+  (forall dbg w a k, Glue.I_ShlAssign_i32_ref_shl_assign dbg w a k = Ops.I_Shl_prim dbg w Ops.AI32 a k) /\
+  (forall dbg w a k, Glue.I_Shl_i64_vr_shl dbg w a k = Ops.I_Shl_prim dbg w Ops.AI64 a k) /\
+  (forall dbg w a k, Glue.I_Shl_i64_rr_shl dbg w a k = Ops.I_Shl_prim dbg w Ops.AI64 a k) /\
+  (forall dbg w a k, Glue.I_Shl_i64_rv_shl dbg w a k = Ops.I_Shl_prim dbg w Ops.AI64 a k) /\
+  (forall dbg w a k, Glue.I_ShlAssign_i64_shl_assign dbg w a k = Ops.I_Shl_prim dbg w Ops.AI64 a k) /\
+  (forall dbg w a k, Glue.I_ShlAssign_i64_ref_shl_assign dbg w a k = Ops.I_Shl_prim dbg w Ops.AI64 a k) /\
+  (forall dbg w a k, Glue.I_Shl_i128_vr_shl dbg w a k = Ops.I_Shl_prim dbg w Ops.AI128 a k) /\
+  (forall dbg w a k, Glue.I_Shl_i128_rr_shl dbg w a k = Ops.I_Shl_prim dbg w Ops.AI128 a k) /\
+  (forall dbg w a k, Glue.I_Shl_i128_rv_shl dbg w a k = Ops.I_Shl_prim dbg w Ops.AI128 a k) /\
+  (forall dbg w a k, Glue.I_ShlAssign_i128_shl_assign dbg w a k = Ops.I_Shl_prim dbg w Ops.AI128 a k) /\
+  (forall dbg w a k, Glue.I_ShlAssign_i128_ref_shl_assign dbg w a k = Ops.I_Shl_prim dbg w Ops.AI128 a k) /\
+  (forall dbg w a k, Glue.I_Shl_isize_vr_shl dbg w a k = Ops.I_Shl_prim dbg w Ops.AIsize a k) /\
+  (forall dbg w a k, Glue.I_Shl_isize_rr_shl dbg w a k = Ops.I_Shl_prim dbg w Ops.AIsize a k) /\
+  (forall dbg w a k, Glue.I_Shl_isize_rv_shl dbg w a k = Ops.I_Shl_prim dbg w Ops.AIsize a k) /\
+  (forall dbg w a k, Glue.I_ShlAssign_isize_shl_assign dbg w a k = Ops.I_Shl_prim dbg w Ops.AIsize a k) /\
+  (forall dbg w a k, Glue.I_ShlAssign_isize_ref_shl_assign dbg w a k = Ops.I_Shl_prim dbg w Ops.AIsize a k) /\
+  (forall dbg w a b n, 0 < w -> 32 < w \/ (w | 32) -> (0 < n)%nat -> wf w n b ->
+  Glue.I_Shl_BUint_shl dbg w a b = Ops.Shl_bnum dbg w true false a b) /\
+  (forall dbg w a b n, 0 < w -> 32 < w \/ (w | 32) -> (0 < n)%nat -> wf w n b ->
+  Glue.I_Shl_BUint_vr_shl dbg w a b = Ops.Shl_bnum dbg w true false a b) /\
+  (forall dbg w a b n, 0 < w -> 32 < w \/ (w | 32) -> (0 < n)%nat -> wf w n b ->
+  Glue.I_Shl_BUint_rr_shl dbg w a b = Ops.Shl_bnum dbg w true false a b) /\
+  (forall dbg w a b n, 0 < w -> 32 < w \/ (w | 32) -> (0 < n)%nat -> wf w n b ->
+  Glue.I_Shl_BUint_rv_shl dbg w a b = Ops.Shl_bnum dbg w true false a b) /\
+  (forall dbg w a b n, 0 < w -> 32 < w \/ (w | 32) -> (0 < n)%nat -> wf w n b ->
+  Glue.I_ShlAssign_BUint_shl_assign dbg w a b = Ops.Shl_bnum dbg w true false a b) /\
+  (forall dbg w a b n, 0 < w -> 32 < w \/ (w | 32) -> (0 < n)%nat -> wf w n b ->
+  Glue.I_ShlAssign_BUint_ref_shl_assign dbg w a b = Ops.Shl_bnum dbg w true false a b) /\
+  (forall dbg w a b n, 0 < w -> 32 < w \/ (w | 32) -> (0 < n)%nat -> wf w n b ->
+  Glue.I_Shl_BInt_shl dbg w a b = Ops.Shl_bnum dbg w true true a b) /\
+  (forall dbg w a b n, 0 < w -> 32 < w \/ (w | 32) -> (0 < n)%nat -> wf w n b ->
+  Glue.I_Shl_BInt_vr_shl dbg w a b = Ops.Shl_bnum dbg w true true a b) /\
+  (forall dbg w a b n, 0 < w -> 32 < w \/ (w | 32) -> (0 < n)%nat -> wf w n b ->
+  Glue.I_Shl_BInt_rr_shl dbg w a b = Ops.Shl_bnum dbg w true true a b) /\
+  (forall dbg w a b n, 0 < w -> 32 < w \/ (w | 32) -> (0 < n)%nat -> wf w n b ->
+  Glue.I_Shl_BInt_rv_shl dbg w a b = Ops.Shl_bnum dbg w true true a b) /\
+  (forall dbg w a b n, 0 < w -> 32 < w \/ (w | 32) -> (0 < n)%nat -> wf w n b ->
+  Glue.I_ShlAssign_BInt_shl_assign dbg w a b = Ops.Shl_bnum dbg w true true a b) /\
+  (forall dbg w a b n, 0 < w -> 32 < w \/ (w | 32) -> (0 < n)%nat -> wf w n b ->
+  Glue.I_ShlAssign_BInt_ref_shl_assign dbg w a b = Ops.Shl_bnum dbg w true true a b) /\
+  (forall dbg w a k, Glue.I_Shr_u8_vr_shr dbg w a k = Ops.I_Shr_prim dbg w Ops.AU8 a k) /\
+  (forall dbg w a k, Glue.I_Shr_u8_rr_shr dbg w a k = Ops.I_Shr_prim dbg w Ops.AU8 a k) /\
+  (forall dbg w a k, Glue.I_Shr_u8_rv_shr dbg w a k = Ops.I_Shr_prim dbg w Ops.AU8 a k) /\
+  (forall dbg w a k, Glue.I_ShrAssign_u8_shr_assign dbg w a k = Ops.I_Shr_prim dbg w Ops.AU8 a k) /\
+  (forall dbg w a k, Glue.I_ShrAssign_u8_ref_shr_assign dbg w a k = Ops.I_Shr_prim dbg w Ops.AU8 a k) /\
+  (forall dbg w a k, Glue.I_Shr_u16_vr_shr dbg w a k = Ops.I_Shr_prim dbg w Ops.AU16 a k) /\
+  (forall dbg w a k, Glue.I_Shr_u16_rr_shr dbg w a k = Ops.I_Shr_prim dbg w Ops.AU16 a k) /\
+  (forall dbg w a k, Glue.I_Shr_u16_rv_shr dbg w a k = Ops.I_Shr_prim dbg w Ops.AU16 a k) /\
+  (forall dbg w a k, Glue.I_ShrAssign_u16_shr_assign dbg w a k = Ops.I_Shr_prim dbg w Ops.AU16 a k) /\
+  (forall dbg w a k, Glue.I_ShrAssign_u16_ref_shr_assign dbg w a k = Ops.I_Shr_prim dbg w Ops.AU16 a k) /\
+  (forall dbg w a k, Glue.I_Shr_u32_vr_shr dbg w a k = Ops.I_Shr_prim dbg w Ops.AU32 a k) /\
+  (forall dbg w a k, Glue.I_Shr_u32_rr_shr dbg w a k = Ops.I_Shr_prim dbg w Ops.AU32 a k) /\
+  (forall dbg w a k, Glue.I_Shr_u32_rv_shr dbg w a k = Ops.I_Shr_prim dbg w Ops.AU32 a k) /\
+  (forall dbg w a k, Glue.I_ShrAssign_u32_shr_assign dbg w a k = Ops.I_Shr_prim dbg w Ops.AU32 a k) /\
+  (forall dbg w a k, Glue.I_ShrAssign_u32_ref_shr_assign dbg w a k = Ops.I_Shr_prim dbg w Ops.AU32 a k) /\
+  (forall dbg w a k, Glue.I_Shr_u64_vr_shr dbg w a k = Ops.I_Shr_prim dbg w Ops.AU64 a k) /\
+  (forall dbg w a k, Glue.I_Shr_u64_rr_shr dbg w a k = Ops.I_Shr_prim dbg w Ops.AU64 a k) /\
+  (forall dbg w a k, Glue.I_Shr_u64_rv_shr dbg w a k = Ops.I_Shr_prim dbg w Ops.AU64 a k) /\
+  (forall dbg w a k, Glue.I_ShrAssign_u64_shr_assign dbg w a k = Ops.I_Shr_prim dbg w Ops.AU64 a k) /\
+  (forall dbg w a k, Glue.I_ShrAssign_u64_ref_shr_assign dbg w a k = Ops.I_Shr_prim dbg w Ops.AU64 a k) /\
+  (forall dbg w a k, Glue.I_Shr_u128_vr_shr dbg w a k = Ops.I_Shr_prim dbg w Ops.AU128 a k) /\
+  (forall dbg w a k, Glue.I_Shr_u128_rr_shr dbg w a k = Ops.I_Shr_prim dbg w Ops.AU128 a k) /\
+  (forall dbg w a k, Glue.I_Shr_u128_rv_shr dbg w a k = Ops.I_Shr_prim dbg w Ops.AU128 a k) /\
+  (forall dbg w a k, Glue.I_ShrAssign_u128_shr_assign dbg w a k = Ops.I_Shr_prim dbg w Ops.AU128 a k) /\
+  (forall dbg w a k, Glue.I_ShrAssign_u128_ref_shr_assign dbg w a k = Ops.I_Shr_prim dbg w Ops.AU128 a k) /\
+  (forall dbg w a k, Glue.I_Shr_usize_vr_shr dbg w a k = Ops.I_Shr_prim dbg w Ops.AUsize a k) /\
+  (forall dbg w a k, Glue.I_Shr_usize_rr_shr dbg w a k = Ops.I_Shr_prim dbg w Ops.AUsize a k) /\
+  (forall dbg w a k, Glue.I_Shr_usize_rv_shr dbg w a k = Ops.I_Shr_prim dbg w Ops.AUsize a k) /\
+  (forall dbg w a k, Glue.I_ShrAssign_usize_shr_assign dbg w a k = Ops.I_Shr_prim dbg w Ops.AUsize a k) /\
+  (forall dbg w a k, Glue.I_ShrAssign_usize_ref_shr_assign dbg w a k = Ops.I_Shr_prim dbg w Ops.AUsize a k) /\
+  (forall dbg w a k, Glue.I_Shr_i8_vr_shr dbg w a k = Ops.I_Shr_prim dbg w Ops.AI8 a k) /\
+  (forall dbg w a k, Glue.I_Shr_i8_rr_shr dbg w a k = Ops.I_Shr_prim dbg w Ops.AI8 a k) /\
+  (forall dbg w a k, Glue.I_Shr_i8_rv_shr dbg w a k = Ops.I_Shr_prim dbg w Ops.AI8 a k) /\
+  (forall dbg w a k, Glue.I_ShrAssign_i8_shr_assign dbg w a k = Ops.I_Shr_prim dbg w Ops.AI8 a k) /\
+  (forall dbg w a k, Glue.I_ShrAssign_i8_ref_shr_assign dbg w a k = Ops.I_Shr_prim dbg w Ops.AI8 a k) /\
+  (forall dbg w a k, Glue.I_Shr_i16_vr_shr dbg w a k = Ops.I_Shr_prim dbg w Ops.AI16 a k) /\
+  (forall dbg w a k, Glue.I_Shr_i16_rr_shr dbg w a k = Ops.I_Shr_prim dbg w Ops.AI16 a k) /\
+  (forall dbg w a k, Glue.I_Shr_i16_rv_shr dbg w a k = Ops.I_Shr_prim dbg w Ops.AI16 a k) /\
+  (forall dbg w a k, Glue.I_ShrAssign_i16_shr_assign dbg w a k = Ops.I_Shr_prim dbg w Ops.AI16 a k) /\
+  (forall dbg w a k, Glue.I_ShrAssign_i16_ref_shr_assign dbg w a k = Ops.I_Shr_prim dbg w Ops.AI16 a k) /\
+  (forall dbg w a k, Glue.I_Shr_i32_vr_shr dbg w a k = Ops.I_Shr_prim dbg w Ops.AI32 a k) /\
+  (forall dbg w a k, Glue.I_Shr_i32_rr_shr dbg w a k = Ops.I_Shr_prim dbg w Ops.AI32 a k) /\
+  (forall dbg w a k, Glue.I_Shr_i32_rv_shr dbg w a k = Ops.I_Shr_prim dbg w Ops.AI32 a k) /\
+  (forall dbg w a k, Glue.I_ShrAssign_i32_shr_assign dbg w a k = Ops.I_Shr_prim dbg w Ops.AI32 a k) /\
+  (forall dbg w a k, Glue.I_ShrAssign_i32_ref_shr_assign dbg w a k = Ops.I_Shr_prim dbg w Ops.AI32 a k) /\
+  (forall dbg w a k, Glue.I_Shr_i64_vr_shr dbg w a k = Ops.I_Shr_prim dbg w Ops.AI64 a k) /\
+  (forall dbg w a k, Glue.I_Shr_i64_rr_shr dbg w a k = Ops.I_Shr_prim dbg w Ops.AI64 a k) /\
+  (forall dbg w a k, Glue.I_Shr_i64_rv_shr dbg w a k = Ops.I_Shr_prim dbg w Ops.AI64 a k) /\
+  (forall dbg w a k, Glue.I_ShrAssign_i64_shr_assign dbg w a k = Ops.I_Shr_prim dbg w Ops.AI64 a k) /\
+  (forall dbg w a k, Glue.I_ShrAssign_i64_ref_shr_assign dbg w a k = Ops.I_Shr_prim dbg w Ops.AI64 a k) /\
+  (forall dbg w a k, Glue.I_Shr_i128_vr_shr dbg w a k = Ops.I_Shr_prim dbg w Ops.AI128 a k) /\
+  (forall dbg w a k, Glue.I_Shr_i128_rr_shr dbg w a k = Ops.I_Shr_prim dbg w Ops.AI128 a k) /\
+  (forall dbg w a k, Glue.I_Shr_i128_rv_shr dbg w a k = Ops.I_Shr_prim dbg w Ops.AI128 a k) /\
+  (forall dbg w a k, Glue.I_ShrAssign_i128_shr_assign dbg w a k = Ops.I_Shr_prim dbg w Ops.AI128 a k) /\
+  (forall dbg w a k, Glue.I_ShrAssign_i128_ref_shr_assign dbg w a k = Ops.I_Shr_prim dbg w Ops.AI128 a k) /\
+  (forall dbg w a k, Glue.I_Shr_isize_vr_shr dbg w a k = Ops.I_Shr_prim dbg w Ops.AIsize a k) /\
+  (forall dbg w a k, Glue.I_Shr_isize_rr_shr dbg w a k = Ops.I_Shr_prim dbg w Ops.AIsize a k) /\
+  (forall dbg w a k, Glue.I_Shr_isize_rv_shr dbg w a k = Ops.I_Shr_prim dbg w Ops.AIsize a k) /\
+  (forall dbg w a k, Glue.I_ShrAssign_isize_shr_assign dbg w a k = Ops.I_Shr_prim dbg w Ops.AIsize a k) /\
+  (forall dbg w a k, Glue.I_ShrAssign_isize_ref_shr_assign dbg w a k = Ops.I_Shr_prim dbg w Ops.AIsize a k) /\
+  (forall dbg w a b n, 0 < w -> 32 < w \/ (w | 32) -> (0 < n)%nat -> wf w n b ->
+  Glue.I_Shr_BUint_shr dbg w a b = Ops.Shr_bnum dbg w true false a b) /\
+  (forall dbg w a b n, 0 < w -> 32 < w \/ (w | 32) -> (0 < n)%nat -> wf w n b ->
+  Glue.I_Shr_BUint_vr_shr dbg w a b = Ops.Shr_bnum dbg w true false a b) /\
+  (forall dbg w a b n, 0 < w -> 32 < w \/ (w | 32) -> (0 < n)%nat -> wf w n b ->
+  Glue.I_Shr_BUint_rr_shr dbg w a b = Ops.Shr_bnum dbg w true false a b) /\
+  (forall dbg w a b n, 0 < w -> 32 < w \/ (w | 32) -> (0 < n)%nat -> wf w n b ->
+  Glue.I_Shr_BUint_rv_shr dbg w a b = Ops.Shr_bnum dbg w true false a b) /\
+  (forall dbg w a b n, 0 < w -> 32 < w \/ (w | 32) -> (0 < n)%nat -> wf w n b ->
+  Glue.I_ShrAssign_BUint_shr_assign dbg w a b = Ops.Shr_bnum dbg w true false a b) /\
+  (forall dbg w a b n, 0 < w -> 32 < w \/ (w | 32) -> (0 < n)%nat -> wf w n b ->
+  Glue.I_ShrAssign_BUint_ref_shr_assign dbg w a b = Ops.Shr_bnum dbg w true false a b) /\
+  (forall dbg w a b n, 0 < w -> 32 < w \/ (w | 32) -> (0 < n)%nat -> wf w n b ->
+  Glue.I_Shr_BInt_shr dbg w a b = Ops.Shr_bnum dbg w true true a b) /\
+  (forall dbg w a b n, 0 < w -> 32 < w \/ (w | 32) -> (0 < n)%nat -> wf w n b ->
+  Glue.I_Shr_BInt_vr_shr dbg w a b = Ops.Shr_bnum dbg w true true a b) /\
+  (forall dbg w a b n, 0 < w -> 32 < w \/ (w | 32) -> (0 < n)%nat -> wf w n b ->
+  Glue.I_Shr_BInt_rr_shr dbg w a b = Ops.Shr_bnum dbg w true true a b) /\
+  (forall dbg w a b n, 0 < w -> 32 < w \/ (w | 32) -> (0 < n)%nat -> wf w n b ->
+  Glue.I_Shr_BInt_rv_shr dbg w a b = Ops.Shr_bnum dbg w true true a b) /\
+  (forall dbg w a b n, 0 < w -> 32 < w \/ (w | 32) -> (0 < n)%nat -> wf w n b ->
+  Glue.I_ShrAssign_BInt_shr_assign dbg w a b = Ops.Shr_bnum dbg w true true a b) /\
+  (forall dbg w a b n, 0 < w -> 32 < w \/ (w | 32) -> (0 < n)%nat -> wf w n b ->
+  Glue.I_ShrAssign_BInt_ref_shr_assign dbg w a b = Ops.Shr_bnum dbg w true true a b) /\
+  (forall w n, Glue.I_Default_default w n = Ops.Default n) /\
+  (forall dbg w n xs, Glue.I_Sum_sum dbg w n xs = Ops.I_Sum dbg w n xs) /\
+  (forall dbg w n xs, Glue.I_Sum_ref_sum dbg w n xs = Ops.I_Sum dbg w n xs) /\
+  (forall dbg w n xs, Glue.I_Product_product dbg w n xs = Ops.I_Product dbg w n xs) /\
+  (forall dbg w n xs, Glue.I_Product_ref_product dbg w n xs = Ops.I_Product dbg w n xs).
+Proof. exact glue_opref_matches_model. Qed.
+Print Assumptions C17_glue_rs_matches_model.
